@@ -43,7 +43,7 @@ CLAIMED = {
         technique="TLC trace validation (CommentOwnership.tla) of recorded attribution calls + read sweep on Layout.tla documents",
         ref="§2.6, §6 C04"),
     'C14': dict(
-        text="CommentOwnership.tla is the ownership transition system (at most one owner, claimed flag iff owned, each call may only move the comments it names between unowned and its own place, auto-claim only fills, leaves none unowned at the root and is idempotent, unclaim+claim restores); recorded executions of all attribution calls on Layout.tla documents are validated by TLC. Layout.tla's Rule states the documented order (leading of the model directly below in the same indentation class, else trailing of a model ending directly above, else standalone) for the unambiguous comment groups and is compared with the default attribution of the real parser; parse(default) is compared with parse(off)+auto-claim.",
+        text="CommentOwnership.tla is the ownership transition system (at most one owner, claimed flag iff owned, each call may only move the comments it names between unowned and its own place, auto-claim only fills, leaves none unowned at the root and is idempotent, unclaim+claim restores, a deep copy taken in any attribution state carries that state's owners and flags); recorded executions of all attribution calls on Layout.tla documents are validated by TLC. Layout.tla's Rule states the documented order (leading of the model directly below in the same indentation class, else trailing of a model ending directly above, else standalone) for the unambiguous comment groups and is compared with the default attribution of the real parser; parse(default) is compared with parse(off)+auto-claim.",
         note="Documents of <= 4-5 lines; ambiguous comment groups (indented comment outside any body, unindented comment between a header and its body, mixed-indent groups) get the invariants but not the order oracle. One deviation class is a recorded finding.",
         technique="TLC trace validation (CommentOwnership.tla) + TLA+ Rule oracle from Layout.tla against the real attribution",
         ref="§2.6, §6 C14"),
@@ -73,7 +73,7 @@ CLAIMED = {
         technique="TLA+ Layout enumeration + PostLex state machine (TLC), replayed on the real parser",
         ref="§2.8, §6 C01"),
     'C10': dict(
-        text="RepList.tla specifies one repeated field and all views onto it with Python list / ordered-dict semantics (PySeq.tla); TLC checks the design invariants and enumerates every call through every view with every index/slice spelling (depth 1) and reduced menus (depth 2-3); each behaviour is replayed on 10 repeated-field families of the real library (load factor rotated) and every view is compared with the specification after every call, including the Python read protocol (len, every index, slices, in, keys/values/items, first-match lookup). The operations inherited from collections.abc (+=, reverse, setdefault, update; iteration both ways, index, count, get) are part of the model. RepImpl.tla - the wrappers' token placement and the views' bisect index arithmetic transcribed statement by statement - is checked by TLC against the canonical rendering and the recomputed filters, each repaired deviation is reproduced as a TLC counterexample, and its behaviours are replayed on the real wrappers with the specification variable rawIdx compared to the private _raw_indexes of every registered view. Membership tests on keys() / values() / items(), iteration both ways, index / count and `x.view += batch` through the attribute are part of the read / write protocol. After node-level and value-level slot edits (Slots.tla, incl. whole repeated fields replaced) every cached derived view must show what the printed document shows.",
+        text="RepList.tla specifies one repeated field and all views onto it with Python list / ordered-dict semantics (PySeq.tla); TLC checks the design invariants and enumerates every call through every view (inherited mixin operations incl. popitem) with every index/slice spelling (depth 1) and reduced menus (depth 2-3); each behaviour is replayed on 10 repeated-field families of the real library (load factor rotated) and every view is compared with the specification after every call, including the Python read protocol (len, every index, slices, in, keys/values/items, first-match lookup). The operations inherited from collections.abc (+=, reverse, setdefault, update; iteration both ways, index, count, get) are part of the model. RepImpl.tla - the wrappers' token placement and the views' bisect index arithmetic transcribed statement by statement - is checked by TLC against the canonical rendering and the recomputed filters, each repaired deviation is reproduced as a TLC counterexample, and its behaviours are replayed on the real wrappers with the specification variable rawIdx compared to the private _raw_indexes of every registered view. Membership tests on keys() / values() / items(), iteration both ways, index / count and `x.view += batch` through the attribute are part of the read / write protocol. After node-level and value-level slot edits (Slots.tla, incl. whole repeated fields replaced) every cached derived view must show what the printed document shows.",
         note="Exhaustive within the constants in evidence.replist_runs; lists of <= 3 initial items, batches <= 2-3.",
         technique="TLA+ RepList/PySeq (TLC) + behaviour replay on the real views",
         ref="§2.3, §6 C10"),
@@ -88,7 +88,7 @@ CLAIMED = {
         technique="TLA+ RepList behaviours replayed, print/re-parse three-way comparison",
         ref="§6 C06"),
     'C05': dict(
-        text="Tree!WellFormed (Tree.tla; the Python transliteration is cross-checked against TLC on sound and deliberately corrupted dumps of real trees in every run) is evaluated on the real tree after every call of: RepList.tla behaviours (all list operations through every view, edits through inserted children, popped nodes self-contained), Slots.tla behaviours (optional / required / repeated slots, attached donors), MetaValue.tla behaviours, spacing assignments, comment attribution sequences (every call, hand-back-and-forth), and composed random histories interleaving all edit kinds incl. deep-copy-and-insert.",
+        text="Tree!WellFormed (Tree.tla; the Python transliteration is cross-checked against TLC on sound and deliberately corrupted dumps of real trees in every run) is evaluated on the real tree after every call of: NumExpr.tla behaviours on a posting's number (in-place arithmetic moves operand subtrees into the document), RepList.tla behaviours (all list operations through every view, edits through inserted children, popped nodes self-contained), Slots.tla behaviours (optional / required / repeated slots, attached donors), MetaValue.tla behaviours, spacing assignments, comment attribution sequences (every call, hand-back-and-forth), and composed random histories interleaving all edit kinds incl. deep-copy-and-insert.",
         note="Small documents; composed histories are a seeded random walk (600 / 6000 walks).",
         technique="TLA+ RepList behaviours replayed, WellFormed invariant on the real tree at every step",
         ref="§2.1, §6 C05"),
